@@ -361,8 +361,36 @@ def field_kind(ann: str):
     return "static"
 
 
+def closure_captures(cls, fn, cfields):
+    """lambdas / nested defs that a constructor stores into a field (directly or as an argument of the stored value) and whose body
+    uses a constructor argument, or a field of self, holding arrays or a sub-module"""
+    params = fn.args.args + fn.args.kwonlyargs
+    pk = {p.arg: field_kind(ann_text(p.annotation)) for p in params if p.arg != "self"}
+    nested = {st.name: st for st in ast.walk(fn) if isinstance(st, ast.FunctionDef) and st is not fn}
+    out = []
+    for st in ast.walk(fn):
+        if not isinstance(st, (ast.Assign, ast.AnnAssign)) or getattr(st, "value", None) is None:
+            continue
+        tgts = st.targets if isinstance(st, ast.Assign) else [st.target]
+        fields = [t.attr for t in tgts if isinstance(t, ast.Attribute) and isinstance(t.value, ast.Name) and t.value.id == "self"]
+        if not fields:
+            continue
+        funs = [n for n in ast.walk(st.value) if isinstance(n, ast.Lambda)]
+        funs += [nested[n.id] for n in ast.walk(st.value) if isinstance(n, ast.Name) and n.id in nested]
+        for f in funs:
+            own = {a.arg for a in f.args.args + f.args.kwonlyargs}
+            body = [f.body] if isinstance(f, ast.Lambda) else f.body
+            for b in body:
+                for n in ast.walk(b):
+                    if isinstance(n, ast.Name) and isinstance(n.ctx, ast.Load) and n.id not in own and pk.get(n.id) in ("array", "module"):
+                        out.extend((cls, fld, n.id) for fld in fields)
+                    if isinstance(n, ast.Attribute) and isinstance(n.value, ast.Name) and n.value.id == "self" and cfields.get(n.attr) in ("array", "module"):
+                        out.extend((cls, fld, "self." + n.attr) for fld in fields)
+    return sorted(set(out))
+
+
 def generate(repo: str) -> dict:
-    methods, fields, errors = [], [], []
+    methods, fields, errors, closures = [], [], [], []
     for rel in FILES:
         path = os.path.join(repo, rel)
         try:
@@ -396,6 +424,8 @@ def generate(repo: str) -> dict:
                 for st in node.body:
                     if isinstance(st, ast.FunctionDef):
                         do_func(node.name, st, cf)
+                        if st.name in ("__init__", "__post_init__"):
+                            closures.extend(closure_captures(node.name, st, cf))
             elif isinstance(node, ast.FunctionDef):
                 do_func(None, node, {})
             elif isinstance(node, (ast.Assign, ast.AugAssign)) and not isinstance(getattr(node, "value", None), (ast.Constant, ast.Call, ast.Name, ast.Attribute, ast.Subscript, ast.Tuple, ast.BinOp)):
@@ -414,6 +444,10 @@ def generate(repo: str) -> dict:
     lines.append("def fields : List Field := [")
     lines.append(",\n".join(f"  ⟨{lean_str(c)}, {lean_str(n)}, FieldKind.{k}, {'true' if m else 'false'}⟩" for c, n, k, m in fields))
     lines.append("]")
+    lines.append("")
+    lines.append("/-- (class, field, captured name): a lambda / nested def stored into a field by a constructor whose body uses a constructor")
+    lines.append("argument or a field that holds arrays or a sub-module — state that would live in a closure instead of the pytree's leaves -/")
+    lines.append("def closureCaptures : List (String × String × String) := [" + ", ".join(f"({lean_str(c)}, {lean_str(f)}, {lean_str(n)})" for c, f, n in closures) + "]")
     lines.append("")
     lines.append("end GenTrace")
     return {"Trace": {"text": "\n".join(lines) + "\n", "errors": errors, "targets": [f"{c}.{n}" if c else n for c, n, *_ in methods]}}
